@@ -1,4 +1,4 @@
 CONSTANTS SLen = 3 Wide = TRUE BigSizes = {60000, 65519, 65522, 65523, 65524, 65527, 65531, 65535, 65536, 70000, 131072} What = {"pdus", "big", "strict"}
 SPECIFICATION GSpec
-INVARIANT Emit
+INVARIANTS Emit GTheorems
 CHECK_DEADLOCK FALSE
